@@ -39,6 +39,10 @@ pub mod s_send;
 #[cfg(kani)]
 pub mod s_watch;
 #[cfg(kani)]
+pub mod s_metrics;
+#[cfg(kani)]
+pub mod s_block;
+#[cfg(kani)]
 pub mod k_kernels;
 #[cfg(kani)]
 pub mod r_exec;
